@@ -1,5 +1,6 @@
 """C16 / C17 driver: the real Binance and Bitstamp clients against a loopback aiohttp server that records the raw
 request line, headers and body, and verifies signatures over the bytes it received, like the exchanges do."""
+import enum
 import ast
 import asyncio
 import hashlib
@@ -194,6 +195,17 @@ def gen_decimal(rnd):
 # ------------------------------------------------------------------------------------------------
 # calls: every signed endpoint of both clients
 
+class StpMode(str, enum.Enum):
+    EXPIRE_TAKER = "EXPIRE_TAKER"
+    EXPIRE_MAKER = "EXPIRE_MAKER"
+    EXPIRE_BOTH = "EXPIRE_BOTH"
+
+
+class RespType(str, enum.Enum):
+    FULL = "FULL"
+    ACK = "ACK"
+
+
 def binance_calls(rnd):
     """[(inventory key, coroutine factory(api_client), expectations)]; expectations: {param: Decimal passed}, omitted keys"""
     D = lambda: gen_decimal(rnd)       # noqa
@@ -231,6 +243,12 @@ def binance_calls(rnd):
             (lambda a, qk=qk, sid=sid, unset=unset, acct=acct: getattr(a, acct).create_order(
                 sym, "SELL", "MARKET", quantity=qk, strategyId=sid, selfTradePreventionMode=unset)),
             dec={"quantity": qk}, omitted=["price"], present={"strategyId": str(sid)})
+        # ... and members of a string enumeration, the usual way to spell the exchange's constants in user code
+        qe, mode = D(), rnd.choice(list(StpMode))
+        add((cls, "create_order"),
+            (lambda a, qe=qe, mode=mode, acct=acct: getattr(a, acct).create_order(
+                sym, "BUY", "MARKET", quantity=qe, selfTradePreventionMode=mode, newOrderRespType=RespType.FULL)),
+            dec={"quantity": qe}, omitted=["price"], present={"selfTradePreventionMode": mode.value, "newOrderRespType": "FULL"})
         c2 = cid()
         add((cls, "query_order"), (lambda a, c2=c2, acct=acct: getattr(a, acct).query_order(sym, orig_client_order_id=c2)),
             present={"origClientOrderId": c2}, omitted=["orderId"])
